@@ -139,7 +139,9 @@ def get_next_imf(X, env_step_size=1, max_iters=1000, energy_thresh=None,
 
         # If upper or lower are None we should stop sifting altogether
         if upper is None or lower is None:
-            continue_flag = False
+            if niters == 1:
+                # The input itself has too few extrema - it is the final residual
+                continue_flag = False
             continue_imf = False
             logger.debug('Finishing sift: IMF has no extrema')
             continue
